@@ -3,5 +3,77 @@ import Vet.Props.Search
 import Vet.Props.Build
 import Vet.Props.C05
 import Vet.Model.Apply
+import Vet.Lemmas.UpdateKeep
+import Vet.Lemmas.UpdateInv
+import Vet.Lemmas.UpdateReq
+import Vet.Lemmas.UpdateEx
 namespace Vet
+
+/-- a table rewritten entry by entry with `(n, l) ↦ (n, keepIdx l (F n))` -/
+theorem keepTable_spec {α : Type} (t : List (Nat × List α)) (F : Nat → Nat → α → Bool) :
+    (t.map (fun (n, l) => (n, keepIdx l (F n)))).map (·.1) = t.map (·.1) ∧
+    ∀ n kept, (n, kept) ∈ t.map (fun (n, l) => (n, keepIdx l (F n))) →
+      ∃ l, (n, l) ∈ t ∧ kept = keepIdx l (F n) := by
+  constructor
+  · rw [List.map_map]
+    apply List.map_congr_left
+    rintro ⟨n, l⟩ _
+    rfl
+  · intro n kept h
+    obtain ⟨⟨n', l⟩, hmem, he⟩ := List.mem_map.1 h
+    cases he
+    exact ⟨l, hmem, rfl⟩
+
+theorem getD_prop {α : Type} (P : α → Prop) (l : List α) (j : Nat) (d : α)
+    (hl : ∀ a ∈ l, P a) (hd : P d) : P (l.getD j d) := by
+  rw [List.getD_eq_getElem?_getD]
+  cases h : l[j]? with
+  | none => exact hd
+  | some a => exact hl a (List.mem_of_getElem? h)
+
+theorem getL_prop {β : Type} (P : β → Prop) (k : Nat) (t : List (Nat × List β))
+    (h : ∀ l, (k, l) ∈ t → ∀ a ∈ l, P a) : ∀ a ∈ getL k t, P a := by
+  intro a ha
+  obtain ⟨v, hv, hav⟩ := getL_mem ha
+  exact h v hv a hav
+
+theorem shouldPruneImports_false (s : Store) (req : Option Required) (mode : UpdateMode) (n : Nat)
+    (hp : mode.pruneImports = false)
+    (h1 : ∀ l, (n, l) ∈ s.publishers → ∀ p ∈ l, p.fresh = false)
+    (h2 : ∀ f ∈ s.imports, (∀ l, (n, l) ∈ f.audits → ∀ a ∈ l, a.fresh = false) ∧
+                            (∀ l, (n, l) ∈ f.wildcards → ∀ a ∈ l, a.fresh = false)) :
+    shouldPruneImports s req mode n = false := by
+  unfold shouldPruneImports
+  rw [hp]
+  simp only [Bool.false_eq_true, if_false]
+  cases req with
+  | none => rfl
+  | some r =>
+    simp only
+    rw [List.any_eq_false]
+    rintro ⟨e, b⟩ _
+    have himp : ∀ i, (∀ l, (n, l) ∈ (s.imports.getD i ⟨[], []⟩).audits → ∀ a ∈ l, a.fresh = false) ∧
+        (∀ l, (n, l) ∈ (s.imports.getD i ⟨[], []⟩).wildcards → ∀ a ∈ l, a.fresh = false) := by
+      intro i
+      apply getD_prop (fun f : AFile => (∀ l, (n, l) ∈ f.audits → ∀ a ∈ l, a.fresh = false) ∧
+        (∀ l, (n, l) ∈ f.wildcards → ∀ a ∈ l, a.fresh = false)) s.imports i _ h2
+      exact ⟨fun l hl => (nomatch hl), fun l hl => (nomatch hl)⟩
+    cases e with
+    | audit i j =>
+      simp only [Bool.not_eq_true]
+      exact getD_prop (fun a : Audit => a.fresh = false) _ j _ (getL_prop _ n _ (himp i).1) rfl
+    | wildcard i j =>
+      simp only [Bool.not_eq_true]
+      exact getD_prop (fun a : Wildcard => a.fresh = false) _ j _ (getL_prop _ n _ (himp i).2) rfl
+    | publisher p =>
+      simp only [Bool.not_eq_true]
+      exact getD_prop (fun a : Publisher => a.fresh = false) _ p _ (getL_prop _ n _ h1) rfl
+    | _ => simp
+
+theorem mem_unique_of_nodup {β : Type} {k : Nat} {l : List (Nat × β)} {v v' : β}
+    (hnd : (l.map (·.1)).Nodup) (h : (k, v) ∈ l) (h' : (k, v') ∈ l) : v = v' := by
+  have e := (assoc?_of_nodup hnd h).symm.trans (assoc?_of_nodup hnd h')
+  cases e
+  rfl
+
 end Vet
